@@ -10,6 +10,7 @@ import (
 	"fmt"
 	"math/rand"
 	"sort"
+	"strings"
 
 	specqbft "github.com/bloxapp/ssv-spec/qbft"
 	spectypes "github.com/bloxapp/ssv-spec/types"
@@ -91,7 +92,16 @@ func mutate(rng *rand.Rand, ks *testingutils.TestKeySet, n int, m *specqbft.Sign
 	m = cloneMsg(m)
 	resign := rng.Intn(2) == 0
 	name := ""
-	switch rng.Intn(12) {
+	pick := rng.Intn(12)
+	if (len(m.Message.RoundChangeJustification) > 0 || len(m.Message.PrepareJustification) > 0) && rng.Intn(2) == 0 {
+		pick = 12
+	}
+	switch pick {
+	case 12:
+		// one field of one EMBEDDED justification message changes (as if taken from another height / round / value of the same
+		// signer: the embedded message is re-signed by its own signer, so only the field itself can make it unacceptable)
+		name = "embedded-" + mutateEmbedded(rng, ks, m)
+		resign = true
 	case 0:
 		m.Message.MsgType = specqbft.MessageType(rng.Intn(5))
 		name = "type"
@@ -173,6 +183,93 @@ func mutate(rng *rand.Rand, ks *testingutils.TestKeySet, n int, m *specqbft.Sign
 	return m, name
 }
 
+// mutateEmbedded changes one field of one message inside m's round-change or prepare justification (or, one level deeper, of
+// a prepare inside an embedded round-change) and re-signs that embedded message with its own signer's key.
+func mutateEmbedded(rng *rand.Rand, ks *testingutils.TestKeySet, m *specqbft.SignedMessage) string {
+	edit := func(list [][]byte, depth int) ([][]byte, string) {
+		i := rng.Intn(len(list))
+		em := &specqbft.SignedMessage{}
+		if em.Decode(list[i]) != nil {
+			return list, "undecodable"
+		}
+		what := ""
+		if depth == 0 && len(em.Message.RoundChangeJustification) > 0 && rng.Intn(3) == 0 {
+			var inner string
+			em.Message.RoundChangeJustification, inner = editList(rng, ks, em.Message.RoundChangeJustification)
+			what = "nested-" + inner
+		} else {
+			what = editField(rng, &em.Message)
+		}
+		if len(em.Signers) == 1 {
+			if _, ok := ks.Shares[em.Signers[0]]; ok {
+				em.Signature = qsim.Sign(ks, em.Signers[0], &em.Message).Signature
+			}
+		}
+		if b, err := em.Encode(); err == nil {
+			list = append([][]byte{}, list...)
+			list[i] = b
+		}
+		return list, what
+	}
+	var what string
+	if len(m.Message.RoundChangeJustification) > 0 && (len(m.Message.PrepareJustification) == 0 || rng.Intn(2) == 0) {
+		m.Message.RoundChangeJustification, what = edit(m.Message.RoundChangeJustification, 0)
+		return "rc-" + what
+	}
+	m.Message.PrepareJustification, what = edit(m.Message.PrepareJustification, 1)
+	return "prepare-" + what
+}
+
+func editList(rng *rand.Rand, ks *testingutils.TestKeySet, list [][]byte) ([][]byte, string) {
+	i := rng.Intn(len(list))
+	em := &specqbft.SignedMessage{}
+	if em.Decode(list[i]) != nil {
+		return list, "undecodable"
+	}
+	what := editField(rng, &em.Message)
+	if len(em.Signers) == 1 {
+		if _, ok := ks.Shares[em.Signers[0]]; ok {
+			em.Signature = qsim.Sign(ks, em.Signers[0], &em.Message).Signature
+		}
+	}
+	if b, err := em.Encode(); err == nil {
+		list = append([][]byte{}, list...)
+		list[i] = b
+	}
+	return list, what
+}
+
+func editField(rng *rand.Rand, msg *specqbft.Message) string {
+	switch rng.Intn(6) {
+	case 0:
+		if rng.Intn(2) == 0 || msg.Height == 0 {
+			msg.Height++
+		} else {
+			msg.Height--
+		}
+		return "height"
+	case 1:
+		d := []int{-1, 1, 2}[rng.Intn(3)]
+		msg.Round = specqbft.Round(int(msg.Round) + d)
+		return "round"
+	case 2:
+		msg.Root[rng.Intn(32)] ^= 1
+		return "root"
+	case 3:
+		msg.MsgType = specqbft.MessageType(rng.Intn(5))
+		return "type"
+	case 4:
+		msg.DataRound = specqbft.Round(rng.Intn(4))
+		return "data-round"
+	default:
+		msg.Identifier = append([]byte{}, msg.Identifier...)
+		if len(msg.Identifier) > 0 {
+			msg.Identifier[len(msg.Identifier)-1] ^= 1
+		}
+		return "identifier"
+	}
+}
+
 func run(c *evid.Case) {
 	env := c.Data.(*qsim.Env)
 	rng := c.Rng
@@ -199,7 +296,8 @@ func run(c *evid.Case) {
 		case qsim.InMsg:
 			m := t.Msg
 			note := ""
-			if rng.Intn(7) == 0 {
+			hasJust := len(m.Message.RoundChangeJustification) > 0 || len(m.Message.PrepareJustification) > 0
+			if rng.Intn(7) == 0 || (hasJust && rng.Intn(3) == 0) {
 				m, note = mutate(rng, cl.KS, cfg.N, m)
 			}
 			ins = append(ins, input{kind: qsim.InMsg, msg: m, note: note})
@@ -435,6 +533,13 @@ func run(c *evid.Case) {
 			cmpOut(idx, in, decidedBefore, isReplay)
 		}
 		c.Count("inputs_compared", 1)
+		if in.kind == qsim.InMsg && in.note != "" {
+			n := in.note
+			if i := strings.Index(n, "+resigned"); i >= 0 {
+				n = n[:i]
+			}
+			c.Count("mutated_or_crafted/"+n, 1)
+		}
 	}
 	c.Count("messages_accepted_by_reference", int64(accepted))
 	if R.State.Decided {
